@@ -48,6 +48,17 @@ def resub(rel, pat, new, count=1, flags=0):
     return f
 
 
+def patch(name):
+    """apply a stored unified diff (selftest/patches/<name>.diff, a confirmed behaviour-preserving refactoring)"""
+    def f(root):
+        import subprocess
+        pf = Path(__file__).resolve().parent / "patches" / f"{name}.diff"
+        r = subprocess.run(["patch", "-p1", "--forward", "--no-backup-if-mismatch", "-s", "-i", str(pf)], cwd=root, capture_output=True, text=True)
+        if r.returncode != 0:
+            raise RuntimeError(f"selftest patch {name} does not apply: {r.stdout[-200:]}{r.stderr[-200:]}")
+    return f
+
+
 def append(rel, text):
     def f(root):
         p = root / "src/_gettsim" / rel
